@@ -97,6 +97,23 @@ def generate(rng, tier):
             cs.append(Case(line, "client-self-A-zero", "panic"))
         else:
             cs.append(Case(line, "client-self-A", lambda out, A=A: None if out.startswith("ok " + A.to_bytes(32, "little").hex() + " ") else "client A is not g^a mod N'"))
+    # the client's own key against the announced modulus is a test of the NUMBER g^a mod N', not of its serialized bytes: keys that are
+    # short (high-order zero bytes) and coincide with the low-order bytes of N', keys that are a byte-prefix / suffix / rotation of N'
+    def self_case(g, np, a, kind):
+        A = pow(g, a, np)
+        line = "cli.new 41 42 %d %s %s %s | %s" % (g, np.to_bytes(32, "little").hex(), B, bytes(32).hex(), a.to_bytes(32, "little").hex())
+        if A == 0:
+            cs.append(Case(line, kind + "-zero", "panic"))
+        else:
+            cs.append(Case(line, kind, lambda out, A=A: None if out.startswith("ok " + A.to_bytes(32, "little").hex() + " ") else "client A is not g^a mod N'"))
+    for g in [1, 2, 7, 16, 128, 255] + [rng.randint(1, 255) for _ in range(6)]:
+        for nbytes in (1, 2, 8, 31):
+            r = rng.getrandbits(8 * nbytes) | 1
+            self_case(g, g + 256 * r, 1, "client-self-A-is-low-byte-of-N'")             # A = g = N' mod 256
+        self_case(g, g * g + 65536 * (rng.getrandbits(64) | 1), 2, "client-self-A-is-low-bytes-of-N'")   # A = g^2 = N' mod 65536
+    for np in (257, 65537, N, N - 1, (1 << 255) + 1):
+        for g, a in ((1, 5), (16, 2), (16, 1), (2, 8), (2, 16), (4, 4)):
+            self_case(g, np, a, "client-self-A-small-under-special-N'")
     return cs
 
 def nontrivial(case, out):
